@@ -57,6 +57,7 @@ Notation src_ok' := (src_ok val odesc parser).
 Notation clean' := (clean val var).
 Notation store_all' := (store_all val var store).
 Notation fixedb c := (c_state c =? VALUE_FIXED).
+Notation after_source := (Spec.after_source val var odesc parser store).
 
 Definition wf (c : cellT) : Prop := clean' c \/ c_state c = VALUE_FIXED.
 
@@ -220,13 +221,6 @@ Qed.
 
 Lemma mentions_In j src : mentions j src = true <-> In j (map fst src).
 Proof. apply mem_In. Qed.
-
-Definition after_source (parsed : list nat) (excl : option (list nat)) (cs : cellsT) (src : list (nat * str))
-           (p' : list nat) (cs' : cellsT) : Prop :=
-  (forall j, mem j p' = mem j parsed || (negb (skipped' parsed excl j) && mentions j src)) /\
-  (forall j, if skipped' parsed excl j || negb (mentions j src) then cs' j = cs j
-             else c_state (cs' j) = VALUE_UNASSIGNED /\ c_vals (cs' j) = c_vals (cs j) ++ accepted' j src /\
-                  c_var (cs' j) = store_all' j (accepted' j src) (c_var (cs j))).
 
 Lemma clean_gen_ok parsed excl cs src :
   (forall o, clean' (cs o)) -> src_ok' parsed excl src -> gen_ok parsed excl cs src.
